@@ -12,7 +12,8 @@ models and prints one canonical answer line per op (see harness/e4/*_test.go for
   <now> http <handler> <bad 0|1> <topic|_> <channel|_> <node|_>
   <now> raw <method> <path> <bad 0|1> <topic|_> <channel|_> <node|_>
   <now> stream <p> <hex bytes> [<hex body>=<bcast>/<host>/<ver>/<tcp>/<http> …]
-  <now> spoof <p> <victim conn> <extra keys|-> <bcast> <host> <ver> <tcp> <http> <hex of what follows the body>
+  <now> spoof <p> <victim conn> <extra keys|-> <bcast> <host> <ver> <tcp> <http> <hex of what follows the body> [k=<n>]
+  <now> abort <p> identify|register|unregister|ping <args as above>   (send, do not read the answer, close)
   <now> q
   noq <line>   apply, print `noq`;   st <line>   apply, print only the reply (no query answers)
 -/
@@ -176,6 +177,31 @@ def stepLine1 (s : DSt) (line : String) : DSt × String :=
           withQ { s with reg := res.reg } now
             (s!"fin={endStr res.fin} replies=" ++ ",".intercalate (res.replies.map hex))
         | _, _ => (s, "bad-op")
+      | "abort" :: p :: kind :: args =>
+        -- the peer sends one command and goes away WITHOUT reading the answer: the command is executed,
+        -- the write of its answer fails, the exit path of IOLoop runs (model: the step, then disconnect)
+        match p.toNat? with
+        | none => (s, "bad-op")
+        | some p =>
+          let r1 : Option Registry :=
+            match kind, args with
+            | "identify", [bc, ho, ve, tcp, http] => (parseInfo bc ho ve tcp http).map (fun inf => (identify s.reg p inf now).1)
+            | "register", ps => (unhexAll ps).map (fun ps => (register s.reg p ps).1)
+            | "unregister", ps => (unhexAll ps).map (fun ps => (unregister s.reg p ps).1)
+            | "ping", [] => some (ping s.reg p now)
+            | _, _ => none
+          match r1 with
+          | some r1 => withQ { s with reg := disconnect r1 p } now "aborted"
+          | none => (s, "bad-op")
+      | ["spoof", p, _victim, _keys, bc, ho, ve, tcp, http, restHex, kS] =>
+        -- as below, but the peer reads only the first k answers and then goes away (pending answer unread)
+        match p.toNat?, parseInfo bc ho ve tcp http, unhex restHex, (kS.drop 2).toNat? with
+        | some p, some inf, some rest, some k =>
+          let bs := magicV1 ++ cmdIDENTIFY ++ [10, 0, 0, 0, 1, 66] ++ rest
+          let res := handleW s.variant (fun b => if b = [66] then some inf else none) (fun n => decide (n < k)) s.reg p now bs
+          withQ { s with reg := res.reg } now
+            (s!"fin={endStr res.fin} replies=" ++ ",".intercalate (res.replies.map hex))
+        | _, _, _, _ => (s, "bad-op")
       | ["spoof", p, _victim, _keys, bc, ho, ve, tcp, http, restHex] =>
         -- a valid IDENTIFY whose document has extra members (they are not IDENTIFY fields: the decoder's
         -- result is the five fields); the body is a one-byte placeholder here
